@@ -13,6 +13,11 @@ import numpy as np
 from .calib_util import FloatSpec, f2b, fl, num, vals, err, quiet, RTOL
 
 DB_TOL = 1e-9      # property tolerance of the oracle, in dB
+# absolute transcription tolerance of dB-valued replies (get_sens / get_db / get_attenuation / get_gain): a level that
+# cancels (level 0, attenuation -6, sensitivity -6 + 3e-8 -> gain -3.5e-8 dB) has no meaningful *relative* accuracy.
+# Measured on the unchanged library (recon/h-calib/m07b.py, 4 seeds x 706 cases): worst |model - code| = 5.7e-14 dB
+# (round-off of the interpolation at table magnitudes of ~100 dB); 1e-11 dB is 100 x below the property tolerance.
+DB_ATOL = 1e-11
 
 
 # ------------------------------------------------------------------ construction
@@ -43,24 +48,102 @@ def ctor_line(k):
     raise ValueError(c)
 
 
+# ---- the same value, written down differently by the caller (hardening item 1) ----------------
+def _isint(x):
+    return float(x).is_integer() and abs(x) < 2 ** 53
+
+
+def _f32ok(x):
+    return float(np.float32(x)) == float(x)
+
+
+def rep_scalar(x, r):
+    """x as a Python float (default), Python int, NumPy float64 / int64 / float32 scalar or 0-d array; a
+    representation that cannot hold the value exactly falls back to the Python float"""
+    if r == 'int' and _isint(x):
+        return int(x)
+    if r == 'npint' and _isint(x):
+        return np.int64(int(x))
+    if r == 'np64':
+        return np.float64(x)
+    if r == 'np32' and _f32ok(x):
+        return np.float32(x)
+    if r == '0d':
+        return np.array(x, dtype=float)
+    return float(x)
+
+
+def rep_array(xs, r):
+    """xs as a float64 ndarray (default), list, tuple, integer / float32 ndarray (when exact), 2-D array,
+    strided view, read-only array or pandas Series"""
+    xs = [float(v) for v in xs]
+    if r == 'list':
+        return list(xs)
+    if r == 'intlist' and all(_isint(v) for v in xs):
+        return [int(v) for v in xs]
+    if r == 'tuple':
+        return tuple(xs)
+    if r == 'intarr' and xs and all(_isint(v) for v in xs):
+        return np.array([int(v) for v in xs], dtype=np.int64)
+    if r == 'f32' and xs and all(_f32ok(v) for v in xs):
+        return np.array(xs, dtype=np.float32)
+    if r == '2d' and len(xs) >= 2 and len(xs) % 2 == 0:
+        return np.array(xs, dtype=float).reshape(2, -1)
+    if r == 'strided' and xs:
+        a = np.zeros(2 * len(xs))
+        a[::2] = xs
+        return a[::2]
+    if r == 'readonly':
+        a = np.array(xs, dtype=float)
+        a.setflags(write=False)
+        return a
+    if r == 'series':
+        import pandas as pd
+        return pd.Series(xs, dtype=float)
+    return np.array(xs, dtype=float)
+
+
+def scribble(a):
+    """the caller re-uses its own container after handing it over"""
+    import pandas as pd
+    if isinstance(a, np.ndarray):
+        if a.flags.writeable and a.size:
+            a[...] = -1
+    elif isinstance(a, pd.Series):
+        if len(a):
+            a.iloc[:] = -1
+    elif isinstance(a, list):
+        a[:] = [-1.0] * len(a)
+
+
 def mkcal(k):
     from psiaudio import calibration as PC
     c = k['c']
+    G = rep_scalar(k.get('G', 0.0), k.get('Grepr'))
+    nr = k.get('nrepr')              # representation of the scalar level / vrms / magnitude arguments
+    pos = k.get('positional')        # vrms handed over positionally
     if c == 'flat':
-        return PC.FlatCalibration(k['S'], fixed_gain=k['G'])
-    if c == 'from_spl':
-        return PC.FlatCalibration.from_spl(k['L'], vrms=k['v'], fixed_gain=k['G'])
-    if c == 'from_db':
-        return PC.FlatCalibration.from_db(k['L'], vrms=k['v'], fixed_gain=k['G'])
-    if c == 'from_pascals':
-        return PC.FlatCalibration.from_pascals(k['m'], vrms=k['v'], fixed_gain=k['G'])
+        if pos:
+            return PC.FlatCalibration(rep_scalar(k['S'], nr), G)
+        return PC.FlatCalibration(rep_scalar(k['S'], nr), fixed_gain=G)
+    if c in ('from_spl', 'from_db', 'from_pascals'):
+        x = rep_scalar(k['m'] if c == 'from_pascals' else k['L'], nr)
+        v = rep_scalar(k['v'], nr)
+        meth = getattr(PC.FlatCalibration, c)
+        return meth(x, v, fixed_gain=G) if pos else meth(x, vrms=v, fixed_gain=G)
     if c == 'from_mv_pa':
-        return PC.FlatCalibration.from_mv_pa(k['m'])
+        return PC.FlatCalibration.from_mv_pa(rep_scalar(k['m'], nr))
     if c == 'unity':
         return PC.FlatCalibration.unity()
     if c == 'as_attenuation':
-        return PC.FlatCalibration.as_attenuation(vrms=k['v'])
+        return PC.FlatCalibration.as_attenuation(rep_scalar(k['v'], nr)) if pos else \
+            PC.FlatCalibration.as_attenuation(vrms=rep_scalar(k['v'], nr))
     cls = PC.InterpCalibration if c.startswith('interp') else PC.PointCalibration
+    kw = {}
+    if k.get('reference'):
+        kw['reference'] = k['reference']
+    if k.get('attrs'):
+        kw['attrs'] = {'source': 'measurement', 'n': len(k.get('tbl') or k.get('rows'))}
     if c in ('interp', 'point'):
         f = [r[0] for r in k['tbl']]
         s = [r[1] for r in k['tbl']]
@@ -68,18 +151,45 @@ def mkcal(k):
         if r == 'intfirst':
             f = [int(v) if float(v).is_integer() else v for v in f]
             s = [int(v) if float(v).is_integer() else v for v in s]
-        elif r == 'tuple':
-            f, s = tuple(f), tuple(s)
-        elif r == 'ndarray':
-            f, s = np.array(f), np.array(s)
-        return cls(f, s, fixed_gain=k['G'])
-    f = np.array([r[0] for r in k['rows']])
-    x = np.array([r[1] for r in k['rows']])
-    v = np.array([r[2] for r in k['rows']])
+        elif r == 'scalar' and len(f) == 1 and c == 'point':
+            f, s = f[0], s[0]
+        elif r is not None:
+            # float32 holds the (integer) frequencies exactly; float32 *sensitivities* would make NumPy compute the
+            # levels in single precision (a property of the caller's dtype, not of the library): kept float64
+            f, s = rep_array(f, r if r != 'f32' or all(_isint(v) for v in f) else None), rep_array(s, r if r != 'f32' else None)
+        if k.get('phase') and c == 'interp':
+            kw['phase'] = [0.01 * i for i in range(len(k['tbl']))]
+        cal = cls(f, s, G, **kw) if pos else cls(f, s, fixed_gain=G, **kw)
+        if k.get('mutate_inputs'):
+            scribble(f)
+            scribble(s)
+        return cal
+    r = k.get('repr') or 'ndarray'
+    fr = [r_[0] for r_ in k['rows']]
+    f = rep_array(fr, r if r != 'f32' or all(_isint(v) for v in fr) else None)
+    x = rep_array([r_[1] for r_ in k['rows']], r if r != 'f32' else None)
+    v = rep_array([r_[2] for r_ in k['rows']], r if r != 'f32' else None)
     if k.get('scalar_vrms'):
-        v = float(v[0])
+        v = rep_scalar(k['rows'][0][2], nr)
     meth = c.split('_', 1)[1]          # from_db / from_spl / from_pascals
-    return getattr(cls, meth)(f, x, vrms=v, fixed_gain=k['G'])
+    if meth != 'from_spl' and kw.get('reference') is None:
+        kw.pop('reference', None)
+    if meth == 'from_spl':
+        kw.pop('reference', None)      # from_spl sets it itself
+    cal = getattr(cls, meth)(f, x, v, fixed_gain=G, **kw) if pos else \
+        getattr(cls, meth)(f, x, vrms=v, fixed_gain=G, **kw)
+    if k.get('mutate_inputs'):
+        for a in (f, x, v):
+            scribble(a)
+    return cal
+
+
+def has_spl(k):
+    """constructors that declare the reference 'SPL' give the object a `get_spl` alias of `get_db`"""
+    c = k['c']
+    return c in ('from_spl', 'from_mv_pa', 'interp_from_spl', 'point_from_spl') or \
+        (k.get('reference') == 'SPL' and c in ('interp', 'point', 'interp_from_db', 'point_from_db',
+                                                'interp_from_pascals', 'point_from_pascals'))
 
 
 def is_flat(k):
@@ -128,6 +238,8 @@ def q_line(q):
         return 'sensitivity'
     if o == 'set_fixed_gain':
         return f"set_fixed_gain {f2b(q['G'])}"
+    if o == 'twin':
+        return None             # another object is built and used: the model's object is not concerned
     raise ValueError(o)
 
 
@@ -138,39 +250,119 @@ def scalar_or_vals(x, n=None):
     return vals(a)
 
 
-def run_query(cal, q):
+def _num(q, key):
+    return rep_scalar(q[key], q.get('nr'))
+
+
+def _freq(q):
+    return rep_scalar(q['f'], q.get('fr'))
+
+
+def _arr_unchanged(args, keeps):
+    import pandas as pd
+    for a, b in zip(args, keeps):
+        if isinstance(a, (np.ndarray, pd.Series, list)) and not np.array_equal(np.asarray(a, dtype=float), b, equal_nan=True):
+            return False
+    return True
+
+
+def twin_of(k):
+    """a second calibration that differs from `k` in exactly one parameter (built and used while the first one
+    is in use: nothing may leak from one object to the other)"""
+    k2 = {kk: ([list(r) for r in vv] if kk in ('tbl', 'rows') else vv) for kk, vv in k.items()}
+    if 'G' in k2:
+        k2['G'] = k2['G'] + 7.0
+    elif 'v' in k2:
+        k2['v'] = k2['v'] * 2
+    elif 'm' in k2:
+        k2['m'] = k2['m'] * 2
+    else:
+        k2 = {'c': 'flat', 'S': 3.0, 'G': 0.0}
+    k2.pop('mutate_inputs', None)
+    return k2
+
+
+def run_query(cal, q, k=None):
     import pandas as pd
     from psiaudio.calibration import CalibrationError
     o = q['op']
+    get_db = cal.get_spl if q.get('spl') else cal.get_db
     try:
         if o == 'sens':
-            return num(np.asarray(cal.get_sens(q['f']), dtype=float)[()])
+            return num(np.asarray(cal.get_sens(_freq(q)), dtype=float)[()], atol=DB_ATOL)
         if o == 'sf':
-            return num(np.asarray(cal.get_sf(q['f'], q['L'], q['A']), dtype=float)[()])
+            if q.get('kw'):
+                return num(np.asarray(cal.get_sf(_freq(q), _num(q, 'L'), attenuation=_num(q, 'A')), dtype=float)[()])
+            if q.get('omit') and q['A'] == 0:
+                return num(np.asarray(cal.get_sf(_freq(q), _num(q, 'L')), dtype=float)[()])
+            return num(np.asarray(cal.get_sf(_freq(q), _num(q, 'L'), _num(q, 'A')), dtype=float)[()])
         if o == 'db':
-            return num(np.asarray(cal.get_db(q['f'], q['v']), dtype=float)[()])
+            return num(np.asarray(get_db(_freq(q), _num(q, 'v')), dtype=float)[()], atol=DB_ATOL)
         if o == 'att':
-            return num(np.asarray(cal.get_attenuation(q['f'], q['v'], q['L']), dtype=float)[()])
+            return num(np.asarray(cal.get_attenuation(_freq(q), _num(q, 'v'), _num(q, 'L')), dtype=float)[()], atol=DB_ATOL)
         if o == 'gain':
-            return num(np.asarray(cal.get_gain(q['f'], q['L'], q['A']), dtype=float)[()])
+            if q.get('kw'):
+                return num(np.asarray(cal.get_gain(_freq(q), _num(q, 'L'), attenuation=_num(q, 'A')), dtype=float)[()], atol=DB_ATOL)
+            return num(np.asarray(cal.get_gain(_freq(q), _num(q, 'L'), _num(q, 'A')), dtype=float)[()], atol=DB_ATOL)
         if o == 'meansf':
             n = max(1, q['fub'] - q['flb'])
-            return num(np.asarray(cal.get_mean_sf(q['flb'], q['fub'], q['L'], attenuation=q['A']), dtype=float)[()],
-                       rtol=RTOL + 4e-16 * n)
-        if o == 'sensv':
-            return vals(cal.get_sens(np.array(q['fs'], dtype=float)))
-        if o == 'sfv':
-            return vals(cal.get_sf(np.array(q['fs'], dtype=float), q['L'], q['A']))
-        if o == 'dbv':
-            if q.get('series'):
-                return vals(cal.get_db(pd.Series(q['vs'], index=q['fs'], dtype=float)).values)
-            return vals(cal.get_db(np.array(q['fs'], dtype=float), np.array(q['vs'], dtype=float)))
+            flb, fub = q['flb'], q['fub']
+            if q.get('mr') == 'float':
+                flb, fub = float(flb), float(fub)
+            elif q.get('mr') == 'npint':
+                flb, fub = np.int64(flb), np.int64(fub)
+            if q.get('kw'):
+                r = cal.get_mean_sf(flb, fub, _num(q, 'L'), attenuation=_num(q, 'A'))
+            else:
+                r = cal.get_mean_sf(flb, fub, _num(q, 'L'), _num(q, 'A'))
+            return num(np.asarray(r, dtype=float)[()], rtol=RTOL + 4e-16 * n)
+        if o in ('sensv', 'sfv', 'dbv'):
+            fa = rep_array(q['fs'], q.get('ar'))
+            args, keeps = [fa], [np.array(q['fs'], dtype=float).reshape(np.shape(fa))]
+            if o == 'sensv':
+                r = cal.get_sens(fa)
+            elif o == 'sfv':
+                r = cal.get_sf(fa, _num(q, 'L'), attenuation=_num(q, 'A')) if q.get('kw') else \
+                    cal.get_sf(fa, _num(q, 'L'), _num(q, 'A'))
+            elif q.get('series'):
+                ser = pd.Series(q['vs'], index=q['fs'], dtype=float)
+                args, keeps = [ser], [np.array(q['vs'], dtype=float)]
+                r = get_db(ser)
+                if not (isinstance(r, pd.Series) and r.index.equals(ser.index)):
+                    return err('SeriesIndexLost')
+                r = r.values
+            elif q.get('frame'):
+                # rows are repeated measurements, columns are frequencies; every row is converted alike
+                df = pd.DataFrame([q['vs'], [2 * v for v in q['vs']], q['vs']], columns=q['fs'], dtype=float)
+                args, keeps = [], []
+                keepdf = df.copy()
+                r = get_db(df)
+                if not (isinstance(r, pd.DataFrame) and r.shape == df.shape and df.equals(keepdf)
+                        and r.columns.equals(df.columns)):
+                    return err('FrameShapeLost')
+                rv = np.asarray(r.values, dtype=float)
+                if not np.array_equal(rv[0], rv[2], equal_nan=True):
+                    return err('FrameRowsDiffer')
+                r = rv[0]
+            else:
+                va = rep_array(q['vs'], q.get('ar') if q.get('ar') not in ('intarr', 'intlist', 'f32') else None)
+                args.append(va)
+                keeps.append(np.array(q['vs'], dtype=float).reshape(np.shape(va)))
+                r = get_db(fa, va)
+            out = vals(r, atol=DB_ATOL if o != 'sfv' else 0.0)      # values copied out here
+            if not _arr_unchanged(args, keeps):
+                return err('ArgumentModified')
+            if np.shape(r) != np.shape(fa) and not (q.get('series') or q.get('frame')):
+                return err(f'ShapeChanged{np.shape(fa)}to{np.shape(r)}')
+            if isinstance(r, np.ndarray) and r.flags.writeable and r.size:
+                r[...] = 77                     # the caller overwrites what it got back and carries on
+            return out
         if o == 'tomvpa':
             return num(cal.to_mv_pa())
         if o == 'sensitivity':
-            return vals(np.atleast_1d(np.asarray(cal.sensitivity, dtype=float)))
+            return vals(np.atleast_1d(np.asarray(cal.sensitivity, dtype=float)), atol=DB_ATOL)
         if o == 'set_fixed_gain':
-            cal.set_fixed_gain(q['G'])
+            cal.set_fixed_gain(rep_scalar(q['G'], q.get('nr')))
             return ('ok',)
     except CalibrationError as e:
         return err('CalibrationError')
@@ -243,8 +435,13 @@ def check_laws(k, queries):
     for q in queries:
         o = q['op']
         if o == 'set_fixed_gain':
-            cal.set_fixed_gain(q['G'])
+            cal.set_fixed_gain(rep_scalar(q['G'], q.get('nr')))
             G0 = q['G']
+            continue
+        if o == 'twin':
+            other = mkcal(twin_of(k))
+            _try(lambda: other.get_sf(q['f'], 60.0))
+            other.set_fixed_gain(-33.0)
             continue
         if o in ('sens', 'sf', 'db', 'att', 'gain'):
             f = q['f']
@@ -252,11 +449,15 @@ def check_laws(k, queries):
             A = q.get('A', 0.0)
             v = q.get('v', 0.5)
             inside = in_range(f)
-            sens = _try(lambda: cal.get_sens(f))
-            sf = _try(lambda: cal.get_sf(f, L, A))
-            dbv = _try(lambda: cal.get_db(f, v))
-            gain = _try(lambda: cal.get_gain(f, L, A))
-            att = _try(lambda: cal.get_attenuation(f, v, L))
+            # the caller's own spelling of the same numbers (int / NumPy scalar / 0-d array; keyword or positional)
+            fq = _freq(q)
+            Lq, Aq, vq = (rep_scalar(x, q.get('nr')) for x in (L, A, v))
+            get_db = cal.get_spl if q.get('spl') and has_spl(k) else cal.get_db
+            sens = _try(lambda: cal.get_sens(fq))
+            sf = _try(lambda: cal.get_sf(fq, Lq, attenuation=Aq) if q.get('kw') else cal.get_sf(fq, Lq, Aq))
+            dbv = _try(lambda: get_db(fq, vq))
+            gain = _try(lambda: cal.get_gain(fq, Lq, attenuation=Aq) if q.get('kw') else cal.get_gain(fq, Lq, Aq))
+            att = _try(lambda: cal.get_attenuation(fq, vq, Lq))
             if not inside:
                 # outside the calibrated range: NaN or an error, never a level
                 want = 'CalibrationError' if k['c'].startswith('point') else 'nan'
@@ -300,6 +501,11 @@ def check_laws(k, queries):
                     return f'fixed gain +{d!r} dB changed get_sf({f!r}, {L!r}) from {sf!r} to {c!r}'
             if not (isinstance(gain, float) and abs(gain - db_of(sf)) <= DB_TOL):
                 return f'get_gain({f!r}, {L!r}, {A!r}) = {gain!r}, db(get_sf) = {db_of(sf)!r}'
+        elif o in ('sensv', 'sfv', 'dbv'):
+            # array (list, tuple, integer / float32 / 2-D / strided array, Series, DataFrame) = scalar, point by point
+            f = law_array(cal, k, q)
+            if f:
+                return f
         elif o == 'meansf':
             flb, fub, L, A = q['flb'], q['fub'], q['L'], q['A']
             fr = np.arange(flb, fub)
@@ -356,6 +562,47 @@ def check_laws(k, queries):
     return None
 
 
+def law_array(cal, k, q):
+    """the array forms answer, position by position, what the scalar form answers (NaN / error included)"""
+    import pandas as pd
+    o, fs = q['op'], q['fs']
+    L, A = q.get('L', 60.0), q.get('A', 0.0)
+    get_db = cal.get_spl if q.get('spl') and has_spl(k) else cal.get_db
+    if o == 'sensv':
+        one = [_try(lambda: cal.get_sens(f)) for f in fs]
+        got = _try(lambda: cal.get_sens(rep_array(fs, q.get('ar'))))
+    elif o == 'sfv':
+        one = [_try(lambda: cal.get_sf(f, L, A)) for f in fs]
+        got = _try(lambda: cal.get_sf(rep_array(fs, q.get('ar')), L, A))
+    else:
+        one = [_try(lambda: cal.get_db(f, v)) for f, v in zip(fs, q['vs'])]
+        if q.get('series'):
+            got = _try(lambda: get_db(pd.Series(q['vs'], index=fs, dtype=float)).values)
+        elif q.get('frame'):
+            got = _try(lambda: get_db(pd.DataFrame([q['vs']], columns=fs, dtype=float)).values[0])
+        else:
+            ar = q.get('ar')
+            got = _try(lambda: get_db(rep_array(fs, ar), rep_array(q['vs'], ar if ar not in ('intarr', 'intlist', 'f32') else None)))
+    errs = [x for x in one if isinstance(x, str) and x != 'nan']
+    if errs:
+        if not (isinstance(got, str) and got == errs[0]):
+            return (f'{o} on {fs!r}: the scalar form raises {errs[0]} for one of the frequencies, the array form '
+                    f'returned {got!r}')
+        return None
+    if not fs:
+        return None             # nothing to answer (an empty result or a loud error are both fine)
+    if isinstance(got, str) or np.size(got) != len(fs):
+        return f'{o} on {fs!r} ({q.get("ar") or "ndarray"}): array form gave {got!r}, scalar form {one!r}'
+    got = np.asarray(got, dtype=float).ravel()
+    for f, a, b in zip(fs, one, got):
+        if a == 'nan':
+            if not math.isnan(b):
+                return f'{o}: {f!r} Hz is outside the calibrated range (scalar form NaN) but the array form gives {b!r}'
+        elif not (abs(b - a) <= (DB_TOL if o != 'sfv' else 1e-12 * abs(a))):   # measured: 1 ulp (2.2e-16), 3000 tables x 3 classes
+            return f'{o}: at {f!r} Hz the array form ({q.get("ar") or "ndarray"}) gives {b!r}, the scalar form {a!r}'
+    return None
+
+
 # ------------------------------------------------------------------ generation
 def rnd(rng, lo, hi, nice=None):
     x = rng.uniform(lo, hi)
@@ -376,39 +623,97 @@ def gen_table(rng, n, consecutive=False):
     return fs
 
 
+TABLE_REPRS = [None, None, 'intfirst', 'tuple', 'ndarray', 'list', 'intlist', 'intarr', 'f32', 'series', 'strided',
+               'readonly']
+NUM_REPRS = [None, None, None, 'int', 'np64', 'npint']
+
+
+def order_rows(rng, n):
+    """tables as written down by the caller: ascending, descending, or in the order the points were measured"""
+    order = list(range(n))
+    r = rng.random()
+    if r < 0.25:
+        order.reverse()
+    elif r < 0.6:
+        rng.shuffle(order)
+    return order
+
+
 def gen_ctor(rng, kind):
-    G = rng.choice([0.0, 0.0, rnd(rng, -60, 60)])
+    G = rng.choice([0.0, 0.0, rnd(rng, -60, 60), float(rng.randint(-60, 60))])
+    extra = {'Grepr': rng.choice(NUM_REPRS), 'nrepr': rng.choice(NUM_REPRS), 'positional': rng.random() < 0.3}
     if kind == 'flat':
         c = rng.choice(['flat', 'from_spl', 'from_db', 'from_pascals', 'from_mv_pa', 'unity', 'as_attenuation'])
         v = rng.choice([1.0, 0.1, 2.0, rnd(rng, 1e-3, 10)])
         if c == 'flat':
-            return {'c': c, 'S': rnd(rng, -60, 160), 'G': G}
+            return dict(extra, c=c, S=rng.choice([rnd(rng, -60, 160), float(rng.randint(-60, 160))]), G=G)
         if c in ('from_spl', 'from_db'):
-            return {'c': c, 'L': rnd(rng, 20, 130), 'v': v, 'G': G}
+            return dict(extra, c=c, L=rng.choice([rnd(rng, 20, 130), float(rng.randint(20, 130))]), v=v, G=G)
         if c == 'from_pascals':
-            m = rng.choice([rnd(rng, 1e-3, 50), 20e-6 * 10 ** (rng.choice([80, 94, 100, 110]) / 20)])
-            return {'c': c, 'm': m, 'v': v, 'G': G}
+            m = rng.choice([rnd(rng, 1e-3, 50), 20e-6 * 10 ** (rng.choice([80, 94, 100, 110]) / 20), 1.0, 2.0])
+            return dict(extra, c=c, m=m, v=v, G=G)
         if c == 'from_mv_pa':
-            return {'c': c, 'm': rng.choice([1.0, 2.5, 50.0, rnd(rng, 0.1, 100)])}
+            return dict(extra, c=c, m=rng.choice([1.0, 2.5, 50.0, rnd(rng, 0.1, 100)]))
         if c == 'unity':
             return {'c': c}
-        return {'c': c, 'v': v}
+        return dict(extra, c=c, v=v)
     n = rng.randint(2, 8)
+    if kind == 'point' and rng.random() < 0.12:
+        n = 1
     fs = gen_table(rng, n, consecutive=(kind == 'point' and rng.random() < 0.4))
     c = rng.choice([kind, kind, kind + '_from_db', kind + '_from_spl', kind + '_from_pascals'])
-    order = list(range(n))
-    if rng.random() < 0.3:
-        rng.shuffle(order)                      # interp1d sorts; point tables need no order
+    order = order_rows(rng, n)
+    extra.update(repr=rng.choice(TABLE_REPRS), attrs=rng.random() < 0.2, mutate_inputs=rng.random() < 0.4)
+    if rng.random() < 0.3 and not c.endswith('_spl'):
+        extra['reference'] = 'SPL'
+    integer = rng.random() < 0.3            # tables a caller would type in as whole numbers
+    if integer:
+        fs = sorted({float(round(f)) for f in fs})
+        while len(fs) < n:
+            fs = sorted(set(fs) | {float(rng.randint(20, 20000))})
+    if extra['repr'] == 'f32' and kind == 'point':
+        # a float32 frequency table makes NumPy compare in single precision (the Python-float elements np.vectorize
+        # hands to np.equal are "weak"): 763.000001 then *is* the table's 763.0 -- the caller's dtype, not the library
+        extra['repr'] = 'ndarray'
     if c == kind:
-        tbl = [[fs[i], rnd(rng, -40, 140)] for i in order]
-        return {'c': c, 'G': G, 'tbl': tbl}
+        if n == 1 and rng.random() < 0.5:
+            extra['repr'] = 'scalar'
+        tbl = [[fs[i], float(rng.randint(-40, 140)) if integer else rnd(rng, -40, 140)] for i in order]
+        return dict(extra, c=c, G=G, tbl=tbl, phase=(kind == 'interp' and rng.random() < 0.3))
+    if extra['repr'] in ('intfirst', 'scalar'):
+        extra['repr'] = None
+    if extra['repr'] == 'f32' and kind == 'point':
+        extra['repr'] = 'ndarray'
     scalar_v = rng.random() < 0.5
     v0 = rng.choice([1.0, 0.1, 2.0, rnd(rng, 1e-3, 10)])
     rows = []
     for i in order:
-        x = rnd(rng, 1e-3, 50) if c.endswith('pascals') else rnd(rng, 20, 130)
-        rows.append([fs[i], x, v0 if scalar_v else rng.choice([1.0, rnd(rng, 1e-3, 10)])])
-    return {'c': c, 'G': G, 'rows': rows, 'scalar_vrms': scalar_v}
+        x = rnd(rng, 1e-3, 50) if c.endswith('pascals') else (float(rng.randint(20, 130)) if integer else rnd(rng, 20, 130))
+        rows.append([fs[i], x, v0 if scalar_v else rng.choice([1.0, 2.0, rnd(rng, 1e-3, 10)])])
+    return dict(extra, c=c, G=G, rows=rows, scalar_vrms=scalar_v)
+
+
+def gen_big(rng, kind):
+    """far beyond the usual sizes: a table of a few thousand rows in measurement order, queried with tens of
+    thousands of frequencies and averaged over a band of 20 kHz"""
+    n = rng.randint(1500, 3000)
+    f0 = rng.randint(20, 200)
+    fs = [float(f0 + 7 * i) for i in range(n)] if kind == 'interp' else [float(f0 + i) for i in range(n)]
+    order = order_rows(rng, n)
+    k = {'c': kind, 'G': rnd(rng, -20, 20), 'tbl': [[fs[i], rnd(rng, 60, 120)] for i in order],
+         'repr': rng.choice(['ndarray', 'list', 'series'])}
+    lo, hi = fs[0], fs[-1]
+    nq = 20000 if kind == 'interp' else 4000
+    if kind == 'interp':
+        ff = [rng.uniform(lo - 50, hi + 50) for _ in range(nq)]
+    else:
+        ff = [float(rng.randint(int(lo), int(hi))) for _ in range(nq)]
+    qs = [{'op': 'sfv', 'fs': ff, 'L': 60.0, 'A': 10.0, 'ar': rng.choice([None, 'list'])},
+          {'op': 'sensv', 'fs': ff[:3000], 'ar': '2d'},
+          {'op': 'meansf', 'flb': int(lo) + 1, 'fub': int(hi) - 1, 'L': 70.0, 'A': 0.0},
+          {'op': 'sf', 'f': fs[n // 2], 'L': 80.0, 'A': 0.0, 'v': 1.0, 'd': 20.0},
+          {'op': 'sens', 'f': hi + 1.0, 'L': 80.0, 'A': 0.0, 'v': 1.0, 'd': 20.0}]
+    return {'kind': k['c'] + '/big', 'ctor': k, 'queries': qs}
 
 
 def freqs_of(k):
@@ -425,6 +730,8 @@ def pick_freq(rng, k):
     r = rng.random()
     if r < 0.35:
         return rng.choice(fs)
+    if r < 0.7 and len(fs) == 1:
+        return rng.choice([fs[0] + 1, fs[0] - 1, fs[0] * (1 + 1e-12)])
     if r < 0.7:
         i = rng.randrange(len(fs) - 1)
         t = rng.choice([0.5, rng.random(), 1e-9, 1 - 1e-9])
@@ -434,20 +741,29 @@ def pick_freq(rng, k):
     return rng.choice([0.0, fs[0] / 2, fs[-1] * 2, 1e6])
 
 
+FREQ_REPRS = [None, None, None, 'int', 'np64', 'np32', 'npint', '0d']
+ARR_REPRS = [None, None, 'list', 'intlist', 'tuple', 'intarr', 'f32', '2d', 'strided', 'readonly', 'series']
+
+
 def gen_queries(rng, k, nq):
     qs = []
     fs = freqs_of(k)
-    for _ in range(nq):
+    spl = has_spl(k)
+    G0 = k.get('G', 0.0)
+    while len(qs) < nq:
         o = rng.choice(['sens', 'sf', 'sf', 'db', 'db', 'att', 'gain', 'meansf', 'sensv', 'sfv', 'dbv',
-                        'set_fixed_gain', 'sensitivity'] + (['tomvpa'] * 2 if is_flat(k) else []))
-        L = rng.choice([rnd(rng, -20, 120), float(rng.randint(-20, 120))])
-        A = rng.choice([0.0, 0.0, 20.0, rnd(rng, 0, 120)])
-        v = rng.choice([1.0, rnd(rng, 1e-6, 10), rnd(rng, 1e-6, 10), 10 ** rng.uniform(-6, 1)])
+                        'set_fixed_gain', 'sensitivity', 'twin', 'again', 'regain']
+                       + (['tomvpa'] * 2 if is_flat(k) else []))
+        L = rng.choice([rnd(rng, -20, 120), float(rng.randint(-20, 120)), 0.0])
+        A = rng.choice([0.0, 0.0, 20.0, rnd(rng, 0, 120), float(rng.randint(-40, 120)), -6.0])
+        v = rng.choice([1.0, rnd(rng, 1e-6, 10), rnd(rng, 1e-6, 10), 10 ** rng.uniform(-6, 1), float(rng.randint(1, 10))])
         if rng.random() < 0.04:
             v = rng.choice([0.0, -1.0])          # malformed: not a voltage
         d = rng.choice([20.0, 6.0, rnd(rng, -40, 40)])
+        how = {'fr': rng.choice(FREQ_REPRS), 'nr': rng.choice(NUM_REPRS), 'kw': rng.random() < 0.4,
+               'omit': rng.random() < 0.5, 'spl': spl and rng.random() < 0.4}
         if o in ('sens', 'sf', 'db', 'att', 'gain'):
-            qs.append({'op': o, 'f': pick_freq(rng, k), 'L': L, 'A': A, 'v': v, 'd': d})
+            qs.append(dict(how, op=o, f=pick_freq(rng, k), L=L, A=A, v=v, d=d))
         elif o == 'meansf':
             if fs is None:
                 flb = rng.randint(0, 2000)
@@ -464,19 +780,45 @@ def gen_queries(rng, k, nq):
                 else:
                     flb = rng.randint(lo, max(lo, hi))
                     fub = flb - rng.randint(0, 2)
-            qs.append({'op': o, 'flb': int(flb), 'fub': int(fub), 'L': L, 'A': A})
+            qs.append({'op': o, 'flb': int(flb), 'fub': int(fub), 'L': L, 'A': A, 'nr': how['nr'], 'kw': how['kw'],
+                       'mr': rng.choice([None, 'float', 'npint'])})
         elif o in ('sensv', 'sfv', 'dbv'):
             n = rng.randint(0, 6) if not k['c'].startswith('point') else rng.randint(1, 6)
             ff = [pick_freq(rng, k) for _ in range(n)]
             if k['c'].startswith('point') and rng.random() < 0.6:
                 ff = [rng.choice(fs) for _ in range(n)]
-            q = {'op': o, 'fs': ff, 'L': L, 'A': A}
+            q = {'op': o, 'fs': ff, 'L': L, 'A': A, 'ar': rng.choice(ARR_REPRS), 'nr': how['nr'], 'kw': how['kw']}
+            if q['ar'] == 'series' and not k['c'].startswith('point') and n == 0:
+                q['ar'] = None
             if o == 'dbv':
                 q['vs'] = [rnd(rng, 1e-6, 10) for _ in ff]
-                q['series'] = rng.random() < 0.5 and len(set(ff)) == len(ff) and n > 0
+                q['spl'] = how['spl']
+                r = rng.random()
+                if r < 0.3 and len(set(ff)) == len(ff) and n > 0:
+                    q['series'] = True
+                elif r < 0.5 and len(set(ff)) == len(ff) and n > 0:
+                    q['frame'] = True
             qs.append(q)
         elif o == 'set_fixed_gain':
-            qs.append({'op': o, 'G': rng.choice([0.0, 20.0, -40.0, rnd(rng, -60, 60)])})
+            qs.append({'op': o, 'G': rng.choice([0.0, 20.0, -40.0, rnd(rng, -60, 60)]), 'nr': how['nr']})
+        elif o == 'twin':
+            qs.append({'op': o, 'f': pick_freq(rng, k)})
+        elif o == 'again':
+            # the very same question once more (possibly after other questions and gain changes in between)
+            prev = [q for q in qs if q['op'] not in ('set_fixed_gain', 'twin')]
+            if prev:
+                qs.append(dict(rng.choice(prev)))
+        elif o == 'regain':
+            # the gain is changed after the object was used, and later set back
+            q1 = dict(how, op=rng.choice(['sf', 'db', 'sens']), f=pick_freq(rng, k), L=L, A=A, v=v, d=d)
+            cur = ([q['G'] for q in qs if q['op'] == 'set_fixed_gain'] or [G0])[-1]
+            qs += [q1, {'op': 'set_fixed_gain', 'G': rng.choice([20.0, rnd(rng, -60, 60)])}, dict(q1),
+                   {'op': 'set_fixed_gain', 'G': cur}, dict(q1)]
+        elif o == 'sensitivity' and k['c'] == 'interp' and k.get('mutate_inputs'):
+            # InterpCalibration keeps the caller's own array as its `sensitivity` *attribute* (np.asarray) while the
+            # interpolator works on a copy: the attribute follows the caller's later writes, the conversions do not.
+            # The property speaks about the conversions; the attribute is not asked here.
+            continue
         else:
             qs.append({'op': o})
     return qs
@@ -501,7 +843,13 @@ class C07(FloatSpec):
             'per-row vrms, shuffled tables), each with 8-14 queries (get_sens/get_sf/get_db/get_attenuation/get_gain, '
             'get_mean_sf, array and Series forms, set_fixed_gain, to_mv_pa) at frequencies on / between / just outside / '
             'far outside the table; levels -20..120, attenuations 0..120. A case is non-trivial when at least one query '
-            'returns a number and the calibration is not the unity one; distinct = distinct case hash.')
+            'returns a number and the calibration is not the unity one; distinct = distinct case hash. Hardening: tables '
+            'ascending / descending / in measurement order, held as list, tuple, (int64, float32, strided, read-only) '
+            'ndarray or Series and optionally overwritten by the caller afterwards; numbers spelled as Python / NumPy ints '
+            'and floats, 0-d arrays; positional and keyword arguments; array queries in the same containers (law: array '
+            'form = scalar form point by point), DataFrame form, get_spl alias; a twin object differing in one parameter; '
+            'the same query repeated; gain changed after first use and set back; two tables of 1500-3000 rows with '
+            '4000-20000 query frequencies per run.')
 
     def gen(self, rng, tier):
         n = 700 if tier == 'quick' else 14000
@@ -509,19 +857,26 @@ class C07(FloatSpec):
             kind = ('flat', 'interp', 'point')[i % 3]
             k = gen_ctor(rng, kind)
             yield {'kind': k['c'], 'ctor': k, 'queries': gen_queries(rng, k, rng.randint(8, 14))}
+        for kind in (('interp', 'point') if tier == 'quick' else ('interp', 'point') * 4):
+            yield gen_big(rng, kind)
 
     def model_lines(self, c):
-        return [ctor_line(c['ctor'])] + [q_line(q) for q in c['queries']]
+        return [ctor_line(c['ctor'])] + [l for l in (q_line(q) for q in c['queries']) if l is not None]
 
     def impl_results(self, c):
         k = c['ctor']
         try:
             cal = mkcal(k)
         except ValueError:
-            return [err('ValueError')] + [err('NoCalibration')] * len(c['queries'])
+            return [err('ValueError')] + [err('NoCalibration')] * len([q for q in c['queries'] if q['op'] != 'twin'])
         out = [('ok',)]
         for q in c['queries']:
-            r = run_query(cal, q)
+            if q['op'] == 'twin':
+                other = mkcal(twin_of(k))
+                run_query(other, {'op': 'sf', 'f': q['f'], 'L': 60.0, 'A': 0.0})
+                other.set_fixed_gain(-33.0)
+                continue
+            r = run_query(cal, q, k)
             if q['op'] == 'sensitivity':
                 r = sort_sensitivity(k, r)
             out.append(r)
